@@ -134,6 +134,65 @@ theorem certOK_unique (a b n m U T T' : ℕ) (hb : 0 < b) (hm : 0 < m)
   have := certOK_sound a b n m U T' hb hm h'
   omega
 
+/-- **Soundness of the enclosure** used for large denominators: certified thresholds
+    of two fractions around σ bracket the formula at σ. -/
+theorem enclosure_sound (a b n m nl ml nh mh U Tl Th : ℕ) (hb : 0 < b) (hab : a ≤ b)
+    (hm : 0 < m) (hml : 0 < ml) (hmh : 0 < mh)
+    (hlo : nl * m ≤ n * ml) (hhi : n * mh ≤ nh * m)
+    (cl : certOK a b nl ml U Tl = true) (ch : certOK a b nh mh U Th = true) :
+    (Tl : ℤ) ≤ Tspec U ((n : ℝ) / m) (1 - (a : ℝ) / b) ∧
+    Tspec U ((n : ℝ) / m) (1 - (a : ℝ) / b) ≤ Th := by
+  have hbR : (0:ℝ) < b := by exact_mod_cast hb
+  have hmR : (0:ℝ) < m := by exact_mod_cast hm
+  have hmlR : (0:ℝ) < ml := by exact_mod_cast hml
+  have hmhR : (0:ℝ) < mh := by exact_mod_cast hmh
+  have hf0 : (0:ℝ) ≤ 1 - (a:ℝ) / b := by
+    have : (a:ℝ) / b ≤ 1 := by rw [div_le_one hbR]; exact_mod_cast hab
+    linarith
+  have hf1 : 1 - (a:ℝ) / b ≤ 1 := by
+    have : (0:ℝ) ≤ (a:ℝ) / b := by positivity
+    linarith
+  have s1 : (nl:ℝ) / ml ≤ (n:ℝ) / m := by
+    rw [div_le_div_iff₀ hmlR hmR]; exact_mod_cast hlo
+  have s2 : (n:ℝ) / m ≤ (nh:ℝ) / mh := by
+    rw [div_le_div_iff₀ hmR hmhR]; exact_mod_cast hhi
+  rw [certOK_sound a b nl ml U Tl hb hml cl, certOK_sound a b nh mh U Th hb hmh ch]
+  exact ⟨T_mono_sigma U _ _ _ hf0 hf1 (by positivity) s1,
+         T_mono_sigma U _ _ _ hf0 hf1 (by positivity) s2⟩
+
+/-- **The exact fast path of the code is the formula**: when 1 − f = (r/s)^m the
+    code returns ⌊U · (s^n − r^n) / s^n⌋ by integer arithmetic; this is the Praos
+    formula at σ = n/m. -/
+theorem exactPath_eq_spec (r s n m U : ℕ) (hs : 0 < s) (hrs : r ≤ s) (hm : 0 < m) :
+    ((U * (s ^ n - r ^ n) / s ^ n : ℕ) : ℤ) =
+      Tspec U ((n : ℝ) / m) (1 - ((r ^ m : ℕ) : ℝ) / ((s ^ m : ℕ) : ℝ)) := by
+  unfold Tspec
+  have hsR : (0:ℝ) < s := by exact_mod_cast hs
+  have hmR : (0:ℝ) < m := by exact_mod_cast hm
+  have hq0 : (0:ℝ) ≤ (r:ℝ) / s := by positivity
+  have e1 : (1:ℝ) - (1 - ((r ^ m : ℕ) : ℝ) / ((s ^ m : ℕ) : ℝ)) = ((r:ℝ) / s) ^ m := by
+    push_cast; rw [div_pow]; ring
+  have e2 : (((r:ℝ) / s) ^ m) ^ ((n:ℝ) / m) = ((r:ℝ) / s) ^ n := by
+    rw [← Real.rpow_natCast, ← Real.rpow_mul hq0, mul_div_cancel₀ _ hmR.ne', Real.rpow_natCast]
+  rw [e1, e2]
+  have hsn : (0:ℝ) < (s:ℝ) ^ n := by positivity
+  have hle : r ^ n ≤ s ^ n := Nat.pow_le_pow_left hrs n
+  have e3 : (U:ℝ) * (1 - ((r:ℝ) / s) ^ n) = ((U * (s ^ n - r ^ n) : ℕ) : ℝ) / ((s ^ n : ℕ) : ℝ) := by
+    rw [div_pow]; push_cast [Nat.cast_sub hle]; field_simp
+  rw [e3]
+  symm
+  rw [Int.floor_eq_iff]
+  have hD : 0 < s ^ n := Nat.pow_pos hs
+  have hDR : (0:ℝ) < ((s ^ n : ℕ) : ℝ) := by exact_mod_cast hD
+  set N := U * (s ^ n - r ^ n) with hN
+  set D := s ^ n with hDdef
+  have h1 : N / D * D ≤ N := Nat.div_mul_le_self N D
+  have h2 : N < (N / D + 1) * D := by
+    have := Nat.lt_div_mul_add hD (a := N); rw [Nat.add_mul]; simpa [Nat.mul_comm] using this
+  constructor
+  · rw [le_div_iff₀ hDR]; exact_mod_cast h1
+  · rw [div_lt_iff₀ hDR]; exact_mod_cast h2
+
 /-! ### the guard ladder of the code against the formula -/
 
 /-- the coefficient as a real number -/
